@@ -143,3 +143,53 @@ def canon_file_dump(data):
         return "%d:%s" % (len(data), dump(t))
     except Malformed:
         return data.hex() or "-"
+
+def encode(t, lie=None):
+    """bytes of a parsed tree (head widths, indefinite flags and chunking preserved)"""
+    def hd(major, v, w):
+        mt = major << 5
+        if w == 0 and v < 24: return bytes([mt | v])
+        if w == 0: w = 1 if v < 256 else 2 if v < 65536 else 4 if v < 2 ** 32 else 8
+        return bytes([mt | {1: 24, 2: 25, 4: 26, 8: 27}[w]]) + (v % 256 ** w).to_bytes(w, "big")
+    k = t[0]
+    if k == "u": return hd(0, t[1], t[2])
+    if k == "n": return hd(1, t[1], t[2])
+    if k in ("b", "t"):
+        m = 2 if k == "b" else 3
+        if t[2] is None: return hd(m, len(t[1]), t[3]) + t[1]
+        return bytes([(m << 5) | 31]) + b"".join(hd(m, len(c), 0) + c for c in t[2]) + b"\xff"
+    if k == "a":
+        body = b"".join(encode(x) for x in t[1])
+        return (b"\x9f" + body + b"\xff") if t[2] else hd(4, len(t[1]), t[3]) + body
+    if k == "m":
+        body = b"".join(encode(a) + encode(b) for a, b in t[1])
+        return (b"\xbf" + body + b"\xff") if t[2] else hd(5, len(t[1]), t[3]) + body
+    if k == "tag": return hd(6, t[1], t[3]) + encode(t[2])
+    if k == "s": return bytes([0xe0 | t[1]]) if t[2] == 0 else bytes([0xf8, t[1]])
+    if k == "f": return bytes([0xe0 | {2: 25, 4: 26, 8: 27}[len(t[1])]]) + t[1]
+    raise ValueError(k)
+
+def mutate_tree(t, rng, p=0.06):
+    """structure-aware mutation: integers replaced by boundary values (out-of-range indices, huge counts), members dropped or
+    duplicated, containers switched to indefinite, wrong major types"""
+    k = t[0]
+    if rng.random() < p:
+        r = rng.random()
+        if r < 0.45: return ("u", rng.choice([0, 1, 23, 24, 255, 65535, 2 ** 31, 2 ** 32 - 1, 2 ** 32, 2 ** 63 - 1, 2 ** 63, 2 ** 64 - 1]), 8)
+        if r < 0.55: return ("n", rng.choice([0, 2 ** 63 - 1, 2 ** 63, 2 ** 64 - 1]), 8)
+        if r < 0.65: return ("b", bytes(rng.getrandbits(8) for _ in range(rng.choice([0, 1, 3, 5, 20]))), None, 0)
+        if r < 0.72: return ("t", b"x" * rng.choice([0, 3]), None, 0)
+        if r < 0.80: return ("a", [], rng.random() < 0.5, 0)
+        if r < 0.88: return ("m", [], rng.random() < 0.5, 0)
+        if r < 0.94: return ("tag", rng.choice([0, 1, 2 ** 40]), t, 0)
+        return ("s", rng.choice([20, 21, 22, 23]), 0)
+    if k == "a":
+        items = [mutate_tree(x, rng, p) for x in t[1]]
+        if items and rng.random() < p: items = items[:rng.randrange(len(items))] if rng.random() < 0.5 else items + [items[-1]]
+        return ("a", items, t[2] if rng.random() > p else not t[2], t[3])
+    if k == "m":
+        ents = [(mutate_tree(a, rng, p / 2), mutate_tree(b, rng, p)) for a, b in t[1]]
+        if ents and rng.random() < p: ents = ents[:rng.randrange(len(ents))] if rng.random() < 0.5 else ents + [ents[rng.randrange(len(ents))]]
+        return ("m", ents, t[2] if rng.random() > p else not t[2], t[3])
+    if k == "tag": return ("tag", t[1], mutate_tree(t[2], rng, p), t[3])
+    return t
